@@ -85,6 +85,8 @@ pub fn replace_global_security_splits(
     // Get all affiliates we need to create splits for
     let mut non_global_affiliates: Vec<_> =
         find_all_non_global_affiliates(sorted_security_txs).into_iter().collect();
+    // Expand splits in a fixed (affiliate id) order, not in hash order
+    non_global_affiliates.sort_by(|a, b| a.id().cmp(b.id()));
 
     // Ensure we have at least the default affiliate. This would be a weird case
     // where the only Txs are splits, but we'll handle it anyway.
